@@ -299,7 +299,7 @@ func (g *Gen) createOp() Op {
 func (g *Gen) add(op Op) { g.ops = append(g.ops, op) }
 
 func (g *Gen) sweep() {
-	for k := 1; k <= g.p.MaxK+1; k++ {
+	for k := 1; k <= g.p.MaxK+8; k++ {
 		if g.usedK[k] || k == g.p.MaxK+1 {
 			g.add(Op{Op: "get", K: k})
 			if !g.usedK[k] {
@@ -692,10 +692,13 @@ func History(p *Profile, seed int64) []Op {
 			case 0, 1:
 				g.add(Op{Op: "rmfile", K: g.pickK(5)})
 			case 2:
-				k := g.p.MaxK + 2 + r.Intn(3)
-				g.usedK[k] = true
-				sp := g.spec(k)
-				g.add(Op{Op: "addfile", Spec: &sp})
+				// one to three files written by another tool (several unindexed files in one Repair)
+				for j := 0; j <= r.Intn(3); j++ {
+					k := g.p.MaxK + 2 + r.Intn(5)
+					g.usedK[k] = true
+					sp := g.spec(k)
+					g.add(Op{Op: "addfile", Spec: &sp})
+				}
 			case 3:
 				g.add(Op{Op: "close"})
 				g.add(Op{Op: "dropentry", K: g.pickK(5), N: 1})
@@ -767,7 +770,7 @@ var profiles = map[string]*Profile{
 		Weights: map[string]int{"ins": 12, "many": 45, "bulk": 30, "del": 8, "reopen": 4, "ls": 3}},
 	// C11: divergence between files and index, Control, Repair
 	"fault": {Name: "fault", Len: [2]int{10, 30}, MaxK: 8, PIndex: 40, PUnique: 6, PUpper: 10, PLower: 10,
-		PCache: 30, PAsync: 0, PGz: 20, PLowerDir: 10, PExt: 20, SweepEvery: 9, SearchSweep: true, NoHostile: true,
+		PCache: 50, PAsync: 0, PGz: 20, PLowerDir: 10, PExt: 20, SweepEvery: 9, SearchSweep: true, NoHostile: true,
 		Weights: map[string]int{"ins": 30, "del": 6, "tamper": 22, "control": 14, "repair": 12, "reopen": 10, "search": 4, "collect": 4, "ls": 3}},
 	// C13: order, reverse, limit, one, AssignIndex
 	"order": {Name: "order", Len: [2]int{15, 45}, MaxK: 16, PIndex: 70, PUnique: 2, PUpper: 10, PLower: 10,
@@ -792,7 +795,7 @@ var profiles = map[string]*Profile{
 		Weights: map[string]int{"ins": 35, "many": 5, "del": 8, "recreate": 16, "reshape": 8, "reopen": 8, "ls": 6, "get": 6}},
 	// C05: crash points. Synchronous mode and calls whose file operations come in a defined order.
 	"crash": {Name: "crash", Len: [2]int{6, 16}, MaxK: 6, PIndex: 45, PUnique: 10, PUpper: 10, PLower: 10,
-		PCache: 50, PAsync: 0, PGz: 25, PLowerDir: 10, PExt: 20, PBadInput: 5, SweepEvery: 0, NoHostile: true,
+		PCache: 50, PAsync: 35, PGz: 25, PLowerDir: 10, PExt: 20, PBadInput: 5, SweepEvery: 0, NoHostile: true,
 		Weights: map[string]int{"ins": 55, "many": 12, "bulk": 6, "del": 16, "reopen": 5, "recreate": 3}},
 	// C06 (storage part): the same, a single file operation fails
 	"iofault": {Name: "iofault", Len: [2]int{6, 16}, MaxK: 6, PIndex: 45, PUnique: 10, PUpper: 10, PLower: 10,
